@@ -86,7 +86,9 @@ def job_local(ses, proto, fkind, akind):
         if not is_ok(re_): continue
         T = re_[3][0]
         goal = Or(And(Fs == StringVal(''), Not(tok_eq(T, spec_token(proto, Ps, Fb, False)))), And(Fs != StringVal(''), Not(tok_eq(T, spec_token(proto, Ps, Fb, True)))))
-        rec = ses.obligation('%s: the produced token is byte-identical to the specification token' % tag, list(se.pc) + [goal], values=vals + [payload_of(T), Ps])
+        try: P_lib = payload_of(T)
+        except Unsupported: P_lib = Ps         # a token text the segment view cannot split (an encoder the model does not know): the comparison above is on the whole text
+        rec = ses.obligation('%s: the produced token is byte-identical to the specification token' % tag, list(se.pc) + [goal], values=vals + [P_lib, Ps])
         if rec:
             m = fmt_model(names + ['P_lib', 'P_spec'], rec)
             ses.violation('%s: produced token differs from the specification\'s token' % tag, m,
@@ -118,7 +120,15 @@ def job_public(ses, proto, fkind, akind):
     vals = [getattr(inp, 'seed', inp.K), utf8(inp.M), Fb, Ab]; names = ['key', 'message', 'footer', 'assertion']
     for se, re_ in E:
         if not is_ok(re_): continue
-        T = re_[3][0]; P = payload_of(T); sg = segments(T)
+        T = re_[3][0]
+        try: P = payload_of(T)
+        except Unsupported:
+            H_ = StringVal(proto + '.')
+            goal = Or(Not(PrefixOf(H_, T)), And(Fs != StringVal(''), Not(SuffixOf(Concat(StringVal('.'), b64(Fb)), T))), Contains(SubString(T, Length(H_), Length(T)), StringVal('+')), Contains(T, StringVal('/')), Contains(T, StringVal('=')))
+            rec = ses.obligation('%s: the produced text is header || unpadded-base64url text [|| "." || b64url(F)]' % tag, list(se.pc) + [goal], values=[Fb])
+            if rec: ses.violation('%s: the produced token is not base64url text in the specification\'s layout' % tag, fmt_model(['footer'], rec), {'kind': 'footer_segment', 'proto': proto, 'model': fmt_model(['footer'], rec)})
+            continue
+        sg = segments(T)
         sig = Extract(P, Length(mb), sl)
         good = And(Length(P) == Length(mb) + sl, Extract(P, 0, Length(mb)) == mb, spec_verify(proto, inp.PK, m2, sig))
         segok = If(Fs == StringVal(''), BoolVal(len(sg) == 3), And(BoolVal(len(sg) == 4), seg_eq(sg[3], [b64(Fb)]) if len(sg) == 4 else BoolVal(False)))
